@@ -36,6 +36,11 @@ type c10Scenario struct {
 	// NoNest: the no-nesting option is on, and "PushShared" pushes one batch slice that all threads share
 	// (a value, a Stack, another value): the Stack is turned away, the caller's slice is left alone
 	NoNest bool `json:"no_nesting,omitempty"`
+	// PolReads: the push policy looks at the stack it guards (Len, Index, Front, Back) before it answers
+	PolReads bool `json:"policy_reads_own_stack,omitempty"`
+	// PolPanics: instead of rejecting the second value of a batch the policy panics on it, and the caller
+	// recovers (user code that fails): the batch ends there like after a rejection, and the lock is free again
+	PolPanics bool `json:"policy_panics_on_b,omitempty"`
 }
 
 func (sc c10Scenario) String() string {
@@ -62,7 +67,30 @@ func (sc c10Scenario) String() string {
 	if sc.NoNest {
 		pol += " no-nesting"
 	}
+	if sc.PolReads {
+		pol += " policy-reads-own-stack"
+	}
+	if sc.PolPanics {
+		pol += " policy-panics-caller-recovers"
+	}
 	return fmt.Sprintf("%s len=%d fifo=%v cap=%d%s {%s}", sc.Kind, sc.InitLen, sc.FIFO, sc.Cap, pol, strings.Join(p, " || "))
+}
+
+// weak: scenarios judged on everything but serialisability (peer transfers; the read-only flag raised and
+// lowered beside a mutator - SetReadOnly is not among the calls the statement lists, it is part of the
+// environment in which the listed ones must neither deadlock nor write outside the lock)
+func (sc c10Scenario) weak() bool {
+	if sc.Peer {
+		return true
+	}
+	for _, pr := range sc.Progs {
+		for _, o := range pr {
+			if o == "Freeze" || o == "Thaw" {
+				return true
+			}
+		}
+	}
+	return false
 }
 
 func (sc c10Scenario) opSig() string {
@@ -78,13 +106,50 @@ var c10OpNames = []string{"Push1", "Pop", "Remove0", "Insert0", "Replace0", "Swa
 
 // c10Op returns the implementation call and its reference-model counterpart for one operation instance.
 func c10Op(name, tok string) (run func(s stackage.Stack) string, model func(m *listModel) string) {
+	switch name {
+	case "Freeze": // the read-only flag goes up (mutators that come later are turned away) ...
+		return func(s stackage.Stack) string { s.SetReadOnly(true); return "" }, func(m *listModel) string { m.ro = true; return "" }
+	case "Thaw": // ... and down again
+		return func(s stackage.Stack) string { s.SetReadOnly(false); return "" }, func(m *listModel) string { m.ro = false; return "" }
+	}
+	run, inner := c10OpRaw(name, tok)
+	if inner == nil {
+		return run, nil
+	}
+	// what a mutator answers while the flag is up: nothing happens
+	refused := ""
+	switch {
+	case name == "Pop" || strings.HasPrefix(name, "Remove"):
+		refused = "(nil,false)"
+	case strings.HasPrefix(name, "Insert") || name == "Replace0":
+		refused = "false"
+	}
+	return run, func(m *listModel) string {
+		if m.ro && name != "SetMutex" {
+			return refused
+		}
+		return inner(m)
+	}
+}
+
+func c10OpRaw(name, tok string) (run func(s stackage.Stack) string, model func(m *listModel) string) {
 	pr := func(v any, ok bool) string { return fmt.Sprintf("(%s,%v)", show(v), ok) }
 	a, b := tok+"a", tok+"b"
 	switch name {
 	case "Push1":
 		return func(s stackage.Stack) string { s.Push(a); return "" }, func(m *listModel) string { m.push(a); return "" }
 	case "Push2":
-		return func(s stackage.Stack) string { s.Push(a, b); return "" }, func(m *listModel) string { m.push(a, b); return "" }
+		return func(s stackage.Stack) string {
+			defer func() {
+				if r := recover(); r != nil {
+					if _, ok := r.(userPanic); !ok {
+						panic(r)
+					}
+				}
+			}()
+			s.Push(a, b)
+			return ""
+		}, func(m *listModel) string { m.push(a, b); return "" }
 	case "Pop":
 		return func(s stackage.Stack) string { return pr(s.Pop()) }, func(m *listModel) string { return pr(m.pop()) }
 	case "Insert0", "Insert1", "InsertEnd":
@@ -202,11 +267,23 @@ func (sc c10Scenario) mk() stackage.Stack {
 	s.SetMutex()
 	if sc.Policy {
 		rej := sc.Reject
+		reads := sc.PolReads
 		s.SetPushPolicy(func(x ...any) error {
+			if reads {
+				// a policy about the content (uniqueness, order): it asks the stack it guards
+				if n := s.Len(); n > 0 {
+					s.Index(0)
+					s.Front()
+					s.Back()
+				}
+			}
 			// user code running inside the critical section is a scheduling point: the other threads get
 			// to run while this one holds the lock, with all of its lock bookkeeping in place
 			schedUserPoint("push-policy")
 			if v, ok := x[0].(string); rej && ok && strings.HasSuffix(v, "b") {
+				if sc.PolPanics {
+					panic(userPanic{"push policy"})
+				}
 				return errCat
 			}
 			return nil
@@ -299,7 +376,7 @@ func (sc c10Scenario) accounting(x *execResult) []string {
 
 func c10Check(c *Ctx, sc c10Scenario, bound int, count bool) (execs int, complete bool) {
 	var allowed map[string]bool
-	if !sc.Peer {
+	if !sc.weak() {
 		allowed = sc.sequentialOutcomes()
 	}
 	sig := sc.opSig()
@@ -338,7 +415,7 @@ func c10Check(c *Ctx, sc c10Scenario, bound int, count bool) (execs int, complet
 		for _, b := range sc.accounting(x) {
 			c.Violation(b+":"+sig, desc(b+": "+o), rep, size+len(x.choices))
 		}
-		if !sc.Peer && !allowed[o] {
+		if !sc.weak() && !allowed[o] {
 			var al []string
 			for k := range allowed {
 				al = append(al, k)
@@ -417,6 +494,27 @@ func c10Scenarios(c *Ctx) (out []c10Scenario, bounds []int) {
 			out = append(out, c10Scenario{InitLen: cf[0], FIFO: cf[1] == 1, Cap: cf[2], Progs: [][]string{{"Push2"}, {b}}, Policy: true, Reject: true})
 			bounds = append(bounds, -1)
 		}
+		// a policy that consults the stack it guards; the read-only flag going up and down beside a mutator
+		for _, b := range ops[:4] {
+			out = append(out, c10Scenario{InitLen: cf[0], FIFO: cf[1] == 1, Cap: cf[2], Progs: [][]string{{"Push2"}, {b}}, Policy: true, PolReads: true})
+			bounds = append(bounds, -1)
+		}
+		for _, b := range ops[:8] {
+			out = append(out, c10Scenario{InitLen: cf[0], FIFO: cf[1] == 1, Cap: cf[2], Progs: [][]string{{"Freeze", "Thaw"}, {b}}})
+			bounds = append(bounds, -1)
+		}
+		out = append(out, c10Scenario{InitLen: cf[0], FIFO: cf[1] == 1, Cap: cf[2], Progs: [][]string{{"Freeze", "Thaw"}, {"Push2"}}, Policy: true},
+			c10Scenario{InitLen: cf[0], FIFO: cf[1] == 1, Cap: cf[2], Progs: [][]string{{"Freeze"}, {"Push1"}, {"Thaw"}}})
+		bounds = append(bounds, -1, 2)
+		// user code that fails inside the critical section (the caller recovers): everybody else goes on
+		for _, b := range ops[:6] {
+			out = append(out, c10Scenario{InitLen: cf[0], FIFO: cf[1] == 1, Cap: cf[2], Progs: [][]string{{"Push2"}, {b}}, Policy: true, Reject: true, PolPanics: true})
+			bounds = append(bounds, -1)
+		}
+		// SetMutex issued again while another thread is in the middle of a Push (inside its policy closure)
+		out = append(out, c10Scenario{InitLen: cf[0], FIFO: cf[1] == 1, Cap: cf[2], Progs: [][]string{{"Push2"}, {"SetMutex", "Push1"}}, Policy: true},
+			c10Scenario{InitLen: cf[0], FIFO: cf[1] == 1, Cap: cf[2], Progs: [][]string{{"Push2"}, {"SetMutex"}, {"Pop"}}, Policy: true})
+		bounds = append(bounds, -1, 2)
 		// SetMutex issued again while others are inside or queued for a mutator
 		for _, b := range ops[:8] {
 			out = append(out, c10Scenario{InitLen: cf[0], FIFO: cf[1] == 1, Cap: cf[2], Progs: [][]string{{"SetMutex", b}, {"Push1"}, {"Pop"}}})
